@@ -4,15 +4,17 @@ C07, float level — IEEE-754 binary64 as exact mathematics.
 1. `F64.ofRatRNE q` (Impl/F64Ieee.lean) is a NEAREST binary64 value to `q` among all finite bit
    patterns (`ofRatRNE_nearest`, discharging `C07.ofRatRNE_nearest_statement`), with ties to the even
    significand, overflow to ±∞ exactly from 2^1024 − 2^970 on, gradual underflow, the sign of `q`.
-2. The tower's float level with `F64.ieeeOps` (IEEE `+ - * /` = exact rational result rounded once)
-   refines "compute in ℚ, then round": the abstract `FloatOps` theorems of Theorems/C07.lean are
-   instantiated, and the float arm of `+ - * /` is characterised on all operands.
+2. The tower's float level with `F64.ieeeOps` (IEEE `+ - * /` = exact rational result rounded once;
+   `%` = the exact truncated remainder; `div_euclid` / `rem_euclid` = the standard library's
+   compositions) refines "compute in ℚ, then round": the abstract `FloatOps` theorems of
+   Theorems/C07.lean are instantiated, and the float arm of `+ - * / % // %%` is characterised on all
+   operands (`tower_float_arm`, `tower_float_rounds`, `tower_float_arm_mod`).
 Core Lean only.
 -/
 import NoulithModel.Theorems.C07
 
 namespace Noulith.C07F
-open Noulith F64
+open Noulith F64 NNum TowerSpec
 
 /-! ## 1. powers of two in ℚ -/
 
@@ -213,6 +215,942 @@ theorem rhe_intCast (k : Int) : roundHalfEven (k : Rat) = k := by
     split at hn <;> grind
   have h2 : ((roundHalfEven (k : Rat) : Int) : Rat) = (k : Rat) := by grind
   exact Rat.intCast_inj.mp h2
+
+
+
+/-! ## 4. decoding bit patterns -/
+
+theorem pow2_neg_eq_inv (a : Int) : pow2 (-a) = (pow2 a)⁻¹ := by
+  have h := pow2_mul_neg a
+  exact (Rat.inv_eq_of_mul_eq_one h).symm
+
+/-- a significand and a biased exponent denote `sig · 2^(ex − 1075)` -/
+theorem magValue_eq (sig ex : Nat) : magValue sig ex = (sig : Rat) * pow2 ((ex : Int) - 1075) := by
+  unfold magValue
+  split
+  · rename_i h
+    rw [Rat.natCast_mul, ← pow2_natCast]
+    congr 2; omega
+  · rename_i h
+    have e : (ex : Int) - 1075 = -((1075 - ex : Nat) : Int) := by omega
+    rw [Rat.mkRat_eq_div, e, pow2_neg_eq_inv, pow2_natCast, Rat.div_def]
+    rfl
+
+
+/-- every finite bit pattern denotes `± sig · 2^(ex − 1075)` with a 53-bit `sig` and `1 ≤ ex ≤ 2046` -/
+theorem viewBits_fin (b : Nat) (q : Rat) (h : viewBits b = .fin q) :
+    ∃ (sig ex : Nat) (neg : Bool), sig < 2 ^ 53 ∧ 1 ≤ ex ∧ ex ≤ 2046 ∧
+      q = (if neg then -1 else 1) * ((sig : Rat) * pow2 ((ex : Int) - 1075)) := by
+  unfold viewBits at h
+  simp only at h
+  split at h
+  · split at h <;> simp at h
+  · rename_i he
+    injection h with h
+    refine ⟨if b / 2 ^ 52 % 2048 = 0 then b % 2 ^ 52 else 2 ^ 52 + b % 2 ^ 52,
+      if b / 2 ^ 52 % 2048 = 0 then 1 else b / 2 ^ 52 % 2048, decide (b / 2 ^ 63 % 2 = 1), ?_, ?_, ?_, ?_⟩
+    · split <;> omega
+    · split <;> omega
+    · split <;> omega
+    · rw [← h, magValue_eq]
+      by_cases hs : b / 2 ^ 63 % 2 = 1
+      · simp only [hs, if_true, decide_true]; grind
+      · simp only [hs, if_false, decide_false]; grind
+
+
+/-- decoding the magnitude bits `(ex + 1022)·2^52 + m` the encoder produces (with or without the
+sign bit): the value is `± m · 2^(ex − 52)`, whether `m` is a subnormal significand (`m < 2^52`,
+`ex = -1022`), a normal one, or the carry `m = 2^53` into the next binade -/
+theorem viewBits_encode (neg : Bool) (ex m : Int) (hex : -1022 ≤ ex) (hm0 : 0 ≤ m)
+    (hm1 : m ≤ 2 ^ 53) (hnorm : 2 ^ 52 ≤ m ∨ ex = -1022)
+    (hlt : (ex + 1022) * 2 ^ 52 + m < 0x7FF0000000000000) :
+    viewBits ((if neg then 2 ^ 63 else 0) + ((ex + 1022) * 2 ^ 52 + m).toNat) =
+      .fin ((if neg then -1 else 1) * ((m : Rat) * pow2 (ex - 52))) := by
+  generalize hB : ((ex + 1022) * 2 ^ 52 + m).toNat = B
+  have hBv : (B : Int) = (ex + 1022) * 2 ^ 52 + m := by omega
+  generalize hb : (if neg then 2 ^ 63 else 0) + B = b
+  have hs : b / 2 ^ 63 % 2 = if neg then 1 else 0 := by cases neg <;> simp at hb ⊢ <;> omega
+  have hmant : b % 2 ^ 52 = B % 2 ^ 52 := by cases neg <;> simp at hb <;> omega
+  have hexp : b / 2 ^ 52 % 2048 = B / 2 ^ 52 := by cases neg <;> simp at hb <;> omega
+  have hne : B / 2 ^ 52 ≠ 2047 := by omega
+  unfold viewBits
+  simp only [hs, hmant, hexp, if_neg hne]
+  -- the magnitude
+  have key : magValue (if B / 2 ^ 52 = 0 then B % 2 ^ 52 else 2 ^ 52 + B % 2 ^ 52)
+      (if B / 2 ^ 52 = 0 then 1 else B / 2 ^ 52) = (m : Rat) * pow2 (ex - 52) := by
+    rw [magValue_eq]
+    by_cases h1 : m < 2 ^ 52
+    · -- subnormal
+      have hex' : ex = -1022 := by omega
+      have e0 : B / 2 ^ 52 = 0 := by omega
+      have em : ((B % 2 ^ 52 : Nat) : Int) = m := by omega
+      simp only [e0, if_true]
+      have : ((B % 2 ^ 52 : Nat) : Rat) = (m : Rat) := by
+        rw [← em]; rfl
+      rw [this, hex']; rfl
+    · by_cases h2 : m < 2 ^ 53
+      · have e0 : ((B / 2 ^ 52 : Nat) : Int) = ex + 1023 := by omega
+        have e0' : B / 2 ^ 52 ≠ 0 := by omega
+        have em : ((2 ^ 52 + B % 2 ^ 52 : Nat) : Int) = m := by omega
+        simp only [e0', if_false]
+        have : ((2 ^ 52 + B % 2 ^ 52 : Nat) : Rat) = (m : Rat) := by
+          rw [← em]; rfl
+        rw [this, e0]
+        congr 2; omega
+      · have hm : m = 2 ^ 53 := by omega
+        have e0 : ((B / 2 ^ 52 : Nat) : Int) = ex + 1024 := by omega
+        have e0' : B / 2 ^ 52 ≠ 0 := by omega
+        have em : B % 2 ^ 52 = 0 := by omega
+        simp only [e0', if_false, em, Nat.add_zero, e0, hm]
+        have : (ex + 1024 - 1075 : Int) = (ex - 52) + 1 := by omega
+        rw [this, pow2_succ]
+        have c1 : ((2 ^ 52 : Nat) : Rat) = 4503599627370496 := by decide +kernel
+        have c2 : (((2 : Int) ^ 53 : Int) : Rat) = 9007199254740992 := by decide +kernel
+        rw [c1, c2]
+        grind
+  rw [key]
+  cases neg <;> simp <;> grind
+
+
+/-! ## 5. the encoder: exponent, significand, magnitude bits -/
+
+theorem div_pow2 (a : Rat) (k : Int) : a / pow2 k = a * pow2 (-k) := by
+  rw [Rat.div_def, pow2_neg_eq_inv]
+
+theorem clampExp_ge (e : Int) : -1022 ≤ clampExp e := by unfold clampExp; split <;> omega
+
+theorem pow2_52 : pow2 52 = 4503599627370496 := by decide +kernel
+theorem pow2_53 : pow2 53 = 9007199254740992 := by decide +kernel
+
+/-- the scaled argument `x = a · 2^(52 − ex)` of the significand rounding lies in `[2^52, 2^53)` for a
+normal result and in `(0, 2^52)` for a subnormal one -/
+theorem scaled_range (a : Rat) (ha : 0 < a) :
+    let ex := clampExp (expOf a)
+    let x := a * pow2 (52 - ex)
+    0 < x ∧ x < 9007199254740992 ∧ ((4503599627370496 : Rat) ≤ x ∨ (ex = -1022 ∧ x < 4503599627370496)) := by
+  intro ex x
+  have ⟨b1, b2⟩ := expOf_bracket a ha
+  have hw := pow2_pos (52 - ex)
+  have hx0 : 0 < x := Rat.mul_pos ha hw
+  by_cases he : expOf a < -1022
+  · have hex : ex = -1022 := by simp [ex, clampExp, he]
+    have h1 : pow2 (expOf a + 1) ≤ pow2 (-1022) := pow2_le_of_le (by omega)
+    have h2 : a < pow2 (-1022) := by grind
+    have h3 := Rat.mul_lt_mul_of_pos_right h2 hw
+    rw [← pow2_add, hex] at h3
+    have : (-1022 : Int) + (52 - -1022) = 52 := by omega
+    rw [this, pow2_52] at h3
+    have hx : x < 4503599627370496 := by simpa [x, hex] using h3
+    exact ⟨hx0, by grind, Or.inr ⟨hex, hx⟩⟩
+  · have hex : ex = expOf a := by simp [ex, clampExp, he]
+    have h3 := Rat.mul_le_mul_of_nonneg_right b1 (Rat.le_of_lt hw)
+    have h4 := Rat.mul_lt_mul_of_pos_right b2 hw
+    rw [← pow2_add, hex] at h3 h4
+    have e1 : expOf a + (52 - expOf a) = 52 := by omega
+    have e2 : expOf a + 1 + (52 - expOf a) = 53 := by omega
+    rw [e1, pow2_52] at h3
+    rw [e2, pow2_53] at h4
+    have hx1 : (4503599627370496 : Rat) ≤ x := by simpa [x, hex] using h3
+    have hx2 : x < 9007199254740992 := by simpa [x, hex] using h4
+    exact ⟨hx0, hx2, Or.inl hx1⟩
+
+/-- the rounded significand is in range: `≤ 2^53`, and `≥ 2^52` unless the result is subnormal -/
+theorem signif_range (a : Rat) (ha : 0 < a) :
+    let ex := clampExp (expOf a)
+    let m := roundHalfEven (a * pow2 (52 - ex))
+    0 ≤ m ∧ m ≤ 2 ^ 53 ∧ (2 ^ 52 ≤ m ∨ ex = -1022) := by
+  intro ex m
+  have ⟨h0, h1, h2⟩ := scaled_range a ha
+  have hb0 := rhe_bounds (a * pow2 (52 - ex)) 0 (2 ^ 53)
+    (by have : ((0 : Int) : Rat) = 0 := rfl
+        rw [this]; exact Rat.le_of_lt h0)
+    (by have : (((2 : Int) ^ 53 : Int) : Rat) = 9007199254740992 := by decide +kernel
+        rw [this]; exact Rat.le_of_lt h1)
+  refine ⟨hb0.1, hb0.2, ?_⟩
+  rcases h2 with h2 | h2
+  · left
+    have := rhe_bounds (a * pow2 (52 - ex)) (2 ^ 52) (2 ^ 53)
+      (by have : (((2 : Int) ^ 52 : Int) : Rat) = 4503599627370496 := by decide +kernel
+          rw [this]; exact h2)
+      (by have : (((2 : Int) ^ 53 : Int) : Rat) = 9007199254740992 := by decide +kernel
+          rw [this]; exact Rat.le_of_lt h1)
+    exact this.1
+  · right; exact h2.1
+
+theorem magRNE_eq (a : Rat) :
+    magRNE a =
+      (let ex := clampExp (expOf a)
+       let m := roundHalfEven (a * pow2 (52 - ex))
+       if 0x7FF0000000000000 ≤ (ex + 1022) * 2 ^ 52 + m then 0x7FF0000000000000
+       else ((ex + 1022) * 2 ^ 52 + m).toNat) := by
+  unfold magRNE
+  simp only [div_pow2]
+  have : ∀ ex : Int, -(ex - 52) = 52 - ex := by intro ex; omega
+  simp only [this]
+
+
+/-! ## 6. `ofRatRNE` is a nearest binary64 -/
+
+theorem abs_mul_pos (c u : Rat) (hu : 0 < u) : (c * u).abs = c.abs * u := by
+  simp only [abs_def]
+  by_cases hc : 0 ≤ c
+  · have : 0 ≤ c * u := Rat.mul_nonneg hc (Rat.le_of_lt hu)
+    simp [hc, this]
+  · have hc' : c < 0 := Rat.not_le.mp hc
+    have : c * u < 0 := by
+      have := Rat.mul_lt_mul_of_pos_right hc' hu
+      rw [Rat.zero_mul] at this; exact this
+    have h2 : ¬ 0 ≤ c * u := Rat.not_le.mpr this
+    simp [hc, h2, Rat.neg_mul]
+
+/-- sign bookkeeping, integer case: if `m` is at least as close to `x` as `K` and `-K` are, then
+`σ m` is at least as close to `σ x` as `σb K`, for signs `σ, σb = ±1` -/
+theorem near_int (x m K σ σb : Rat) (hσ : σ = 1 ∨ σ = -1) (hσb : σb = 1 ∨ σb = -1)
+    (n1 : (x - m).abs ≤ (x - K).abs) (n2 : (x - m).abs ≤ (x - -K).abs) :
+    (σ * (x - m)).abs ≤ (σ * x - σb * K).abs := by
+  simp only [abs_def] at n1 n2 ⊢
+  rcases hσ with rfl | rfl <;> rcases hσb with rfl | rfl <;>
+    (repeat' split at n1) <;> (repeat' split at n2) <;> (repeat' split) <;> grind
+
+/-- sign bookkeeping, small case: a value `t` below `B ≤ x` is farther from `x` than `m` if `m` is
+at least as close to `x` as `B` -/
+theorem near_small (x m t B σ σb : Rat) (hσ : σ = 1 ∨ σ = -1) (hσb : σb = 1 ∨ σb = -1)
+    (hB : B ≤ x) (ht0 : 0 ≤ t) (ht1 : t < B) (n1 : (x - m).abs ≤ (x - B).abs) :
+    (σ * (x - m)).abs ≤ (σ * x - σb * t).abs := by
+  simp only [abs_def] at n1 ⊢
+  rcases hσ with rfl | rfl <;> rcases hσb with rfl | rfl <;>
+    (repeat' split at n1) <;> (repeat' split) <;> grind
+
+/-- the value the encoder's magnitude bits decode to, and its distance property, for `a > 0`:
+either the result is the overflow pattern, or it decodes to `m · 2^(ex−52)` -/
+theorem magRNE_decode (neg : Bool) (a : Rat) (ha : 0 < a)
+    (hfin : magRNE a ≠ 0x7FF0000000000000) :
+    viewBits ((if neg then 2 ^ 63 else 0) + magRNE a) =
+      .fin ((if neg then -1 else 1) *
+        ((roundHalfEven (a * pow2 (52 - clampExp (expOf a))) : Rat) * pow2 (clampExp (expOf a) - 52))) := by
+  have ⟨m0, m1, mn⟩ := signif_range a ha
+  rw [magRNE_eq] at hfin ⊢
+  simp only at hfin ⊢ m0 m1 mn
+  split at hfin
+  · exact absurd rfl hfin
+  · rename_i hlt
+    rw [if_neg hlt]
+    exact viewBits_encode neg _ _ (clampExp_ge _) m0 m1 mn (by omega)
+
+/-- The anatomy of one rounding, relative to any other finite float `qb`: with `u = 2^(ex−52)` the
+unit in the last place of the result's binade, `a = x·u`, the result is `σ·m·u` with
+`m = roundHalfEven x`, and `qb = σb·t·u` where `t` is an integer, or `0 ≤ t < 2^52 ≤ x` -/
+theorem enc_analysis (neg : Bool) (a : Rat) (ha : 0 < a) (hfin : magRNE a ≠ 0x7FF0000000000000)
+    (b : Nat) (qb : Rat) (hb : viewBits b = .fin qb) :
+    ∃ (ex : Int) (x t σb : Rat),
+      0 < pow2 (ex - 52) ∧ (σb = 1 ∨ σb = -1) ∧ a = x * pow2 (ex - 52) ∧ 0 ≤ roundHalfEven x ∧
+      magRNE a = ((ex + 1022) * 2 ^ 52 + roundHalfEven x).toNat ∧
+      viewBits ((if neg then 2 ^ 63 else 0) + magRNE a) =
+        .fin ((if neg then -1 else 1) * ((roundHalfEven x : Rat) * pow2 (ex - 52))) ∧
+      qb = σb * t * pow2 (ex - 52) ∧
+      ((∃ K : Int, (K : Rat) = t) ∨ (0 ≤ t ∧ t < 4503599627370496 ∧ (4503599627370496 : Rat) ≤ x)) := by
+  have hdec := magRNE_decode neg a ha hfin
+  obtain ⟨sig, exb, nb, hsig, hexb1, hexb2, hqb⟩ := viewBits_fin b qb hb
+  have ⟨x0, x1, xn⟩ := scaled_range a ha
+  have ⟨m0, _, _⟩ := signif_range a ha
+  have hmag := magRNE_eq a
+  simp only at hmag
+  generalize hex : clampExp (expOf a) = ex at *
+  have hexge : -1022 ≤ ex := hex ▸ clampExp_ge _
+  generalize hx : a * pow2 (52 - ex) = x at *
+  have hu := pow2_pos (ex - 52)
+  have ha' : a = x * pow2 (ex - 52) := by
+    rw [← hx, Rat.mul_assoc, ← pow2_add]
+    have : (52 - ex) + (ex - 52) = 0 := by omega
+    rw [this, pow2_zero, Rat.mul_one]
+  have hmag' : magRNE a = ((ex + 1022) * 2 ^ 52 + roundHalfEven x).toNat := by
+    rw [hmag]; split
+    · rename_i h; rw [hmag, if_pos h] at hfin; exact absurd rfl hfin
+    · rfl
+  have hsplit : pow2 ((exb : Int) - 1075) = pow2 ((exb : Int) - 1023 - ex) * pow2 (ex - 52) := by
+    rw [← pow2_add]; congr 1; omega
+  refine ⟨ex, x, (sig : Rat) * pow2 ((exb : Int) - 1023 - ex), if nb then -1 else 1,
+    hu, by cases nb <;> simp, ha', m0, hmag', hdec, by rw [hqb, hsplit]; grind, ?_⟩
+  by_cases hcase : 0 ≤ (exb : Int) - 1023 - ex
+  · left
+    refine ⟨(sig * 2 ^ ((exb : Int) - 1023 - ex).toNat : Nat), ?_⟩
+    have : (exb : Int) - 1023 - ex = (((exb : Int) - 1023 - ex).toNat : Int) := by omega
+    rw [this, pow2_natCast, Int.toNat_natCast]
+    rw [show (((sig * 2 ^ ((exb : Int) - 1023 - ex).toNat : Nat) : Int) : Rat)
+        = ((sig * 2 ^ ((exb : Int) - 1023 - ex).toNat : Nat) : Rat) from rfl, Rat.natCast_mul]
+  · right
+    have hneg : (exb : Int) - 1023 - ex ≤ -1 := by omega
+    have hexn : ex ≠ -1022 := by omega
+    have hx52 : (4503599627370496 : Rat) ≤ x := by
+      rcases xn with h | h
+      · exact h
+      · exact absurd h.1 hexn
+    have hs0 : (0 : Rat) ≤ (sig : Rat) := Rat.natCast_nonneg
+    refine ⟨Rat.mul_nonneg hs0 (Rat.le_of_lt (pow2_pos _)), ?_, hx52⟩
+    have hp : pow2 ((exb : Int) - 1023 - ex) ≤ pow2 (-1) := pow2_le_of_le hneg
+    have hhalf : pow2 (-1) = 1 / 2 := by decide +kernel
+    have hs : (sig : Rat) < 9007199254740992 := by
+      have : ((sig : Nat) : Rat) < ((2 ^ 53 : Nat) : Rat) := Rat.natCast_lt_natCast.mpr hsig
+      have c : ((2 ^ 53 : Nat) : Rat) = 9007199254740992 := by decide +kernel
+      rw [c] at this; exact this
+    have h1 := Rat.mul_le_mul_of_nonneg_left hp hs0
+    rw [hhalf] at h1
+    grind
+
+theorem overflow_not_fin (neg : Bool) (q' : Rat) :
+    viewBits ((if neg then 2 ^ 63 else 0) + 0x7FF0000000000000) ≠ .fin q' := by
+  intro h
+  cases neg <;> simp at h
+  · have := C07.viewBits_inf.1; rw [this] at h; cases h
+  · have := C07.viewBits_inf.2.1; rw [this] at h; cases h
+
+theorem c52 : (((2 : Int) ^ 52 : Int) : Rat) = 4503599627370496 := by decide +kernel
+
+theorem nearest_pos (neg : Bool) (a : Rat) (ha : 0 < a) (q' : Rat)
+    (h : viewBits ((if neg then 2 ^ 63 else 0) + magRNE a) = .fin q') (b : Nat) (qb : Rat)
+    (hb : viewBits b = .fin qb) :
+    ((if neg then -1 else 1) * a - q').abs ≤ ((if neg then -1 else 1) * a - qb).abs := by
+  have hfin : magRNE a ≠ 0x7FF0000000000000 := by
+    intro hov; rw [hov] at h; exact overflow_not_fin neg q' h
+  obtain ⟨ex, x, t, σb, hu, hσb', ha', _, _, hdec, hqb, hcase⟩ := enc_analysis neg a ha hfin b qb hb
+  rw [hdec] at h
+  injection h with h
+  generalize hσ : (if neg then (-1 : Rat) else 1) = σ at *
+  have hσ' : σ = 1 ∨ σ = -1 := by cases neg <;> simp at hσ <;> simp [← hσ]
+  generalize hm : roundHalfEven x = m at *
+  have e1 : σ * a - q' = (σ * (x - (m : Rat))) * pow2 (ex - 52) := by
+    rw [← h, ha']; grind
+  have e2 : σ * a - qb = (σ * x - σb * t) * pow2 (ex - 52) := by
+    rw [hqb, ha']; grind
+  rw [e1, e2, abs_mul_pos _ _ hu, abs_mul_pos _ _ hu]
+  apply Rat.mul_le_mul_of_nonneg_right _ (Rat.le_of_lt hu)
+  rcases hcase with ⟨K, hK⟩ | ⟨ht0, ht1, hx52⟩
+  · have n1 := rhe_nearest x K
+    have n2 := rhe_nearest x (-K)
+    rw [Rat.intCast_neg] at n2
+    rw [hm, hK] at n1 n2
+    exact near_int x m t σ σb hσ' hσb' n1 n2
+  · have n1 := rhe_nearest x (2 ^ 52)
+    rw [hm, c52] at n1
+    exact near_small x m t _ σ σb hσ' hσb' hx52 ht0 ht1 n1
+
+/-- **nearest**: whenever `ofRatRNE q` is finite, no finite binary64 value (no bit pattern at all,
+of any width) is closer to `q` than it is -/
+theorem ofRatRNE_nearest_any (q q' : Rat) (h : viewBits (ofRatRNE q) = .fin q') (b : Nat) (qb : Rat)
+    (hb : viewBits b = .fin qb) : (q - q').abs ≤ (q - qb).abs := by
+  unfold ofRatRNE at h
+  by_cases h0 : q = 0
+  · subst h0
+    rw [if_pos rfl, C07.viewBits_zeros.1] at h
+    injection h with h
+    subst h
+    simp only [abs_def]; (repeat' split) <;> grind
+  · rw [if_neg h0] at h
+    by_cases hn : q < 0
+    · rw [if_pos hn] at h
+      have ha : 0 < -q := by grind
+      have := nearest_pos true (-q) ha q' (by simpa using h) b qb hb
+      have e : (-1 : Rat) * -q = q := by grind
+      simp only [if_true] at this
+      rw [e] at this
+      exact this
+    · rw [if_neg hn] at h
+      have ha : 0 < q := by grind
+      have := nearest_pos false q ha q' (by simpa using h) b qb hb
+      simpa [Rat.one_mul] using this
+
+
+
+/-- the statement kept unproved in Theorems/C07.lean until now -/
+theorem ofRatRNE_nearest : C07.ofRatRNE_nearest_statement :=
+  fun q q' h b qb _ hb => ofRatRNE_nearest_any q q' h b qb hb
+
+/-! ## 7. ties to even, sign, overflow threshold, exactness on representable values -/
+
+theorem magRNE_le (a : Rat) : magRNE a ≤ 0x7FF0000000000000 := by
+  rw [magRNE_eq]; simp only; split <;> omega
+
+/-- the sign bit of the result is the sign of the argument (`-0` is never produced from a rational) -/
+theorem ofRatRNE_sign (q : Rat) : signBit (ofRatRNE q) = decide (q < 0) := by
+  unfold ofRatRNE signBit
+  by_cases h0 : q = 0
+  · subst h0; simp
+  · rw [if_neg h0]
+    by_cases hn : q < 0
+    · have := magRNE_le (-q)
+      simp [hn]; omega
+    · have := magRNE_le q
+      simp [hn]; omega
+
+/-- two different integers at the same distance from `x`: `x` is half-way and both are adjacent -/
+theorem tie_is_half (x : Rat) (m K : Int) (hne : K ≠ m)
+    (hm : (x - (m : Rat)).abs ≤ 1 / 2) (heq : (x - (K : Rat)).abs = (x - (m : Rat)).abs) :
+    x - (x.floor : Rat) = 1 / 2 := by
+  have ⟨f1, f2⟩ := floor_bounds x
+  -- |m - K| ≤ 1, so they are adjacent and x is their midpoint
+  have hKm : (K : Rat) ≠ (m : Rat) := fun h => hne (Rat.intCast_inj.mp h)
+  simp only [abs_def] at hm heq
+  have hmid : x = ((m : Rat) + (K : Rat)) / 2 := by
+    (repeat' split at heq) <;> (repeat' split at hm) <;> grind
+  have hd : (K : Rat) - (m : Rat) = 1 ∨ (K : Rat) - (m : Rat) = -1 := by
+    have h1 : ((K - m : Int) : Rat) = (K : Rat) - (m : Rat) := Rat.intCast_sub K m
+    have hle : ((K : Rat) - (m : Rat)) ≤ 1 ∧ -1 ≤ ((K : Rat) - (m : Rat)) := by
+      (repeat' split at hm) <;> constructor <;> grind
+    rw [← h1] at hle
+    have c1 : ((1 : Int) : Rat) = 1 := rfl
+    have cm1 : ((-1 : Int) : Rat) = -1 := rfl
+    have a1 : K - m ≤ 1 := Rat.intCast_le_intCast.mp (by rw [c1]; exact hle.1)
+    have a2 : -1 ≤ K - m := Rat.intCast_le_intCast.mp (by rw [cm1]; exact hle.2)
+    have a3 : K - m ≠ 0 := by omega
+    have : K - m = 1 ∨ K - m = -1 := by omega
+    rcases this with h | h
+    · left; rw [← h1, h]; rfl
+    · right; rw [← h1, h]; rfl
+  -- the floor is the smaller of the two
+  rcases hd with hd | hd
+  · have hfl : x.floor = m := by
+      apply Int.le_antisymm
+      · have : (x.floor : Rat) < (m : Rat) + 1 := by grind
+        have h2 : ((m + 1 : Int) : Rat) = (m : Rat) + 1 := Rat.intCast_add m 1
+        rw [← h2] at this
+        have := Rat.intCast_lt_intCast.mp this; omega
+      · exact Rat.le_floor_iff.mpr (by grind)
+    rw [hfl]; grind
+  · have hfl : x.floor = K := by
+      apply Int.le_antisymm
+      · have : (x.floor : Rat) < (K : Rat) + 1 := by grind
+        have h2 : ((K + 1 : Int) : Rat) = (K : Rat) + 1 := Rat.intCast_add K 1
+        rw [← h2] at this
+        have := Rat.intCast_lt_intCast.mp this; omega
+      · exact Rat.le_floor_iff.mpr (by grind)
+    rw [hfl]; grind
+
+
+theorem ties_pos (neg : Bool) (a : Rat) (ha : 0 < a) (q' : Rat)
+    (h : viewBits ((if neg then 2 ^ 63 else 0) + magRNE a) = .fin q') (b : Nat) (qb : Rat)
+    (hb : viewBits b = .fin qb) (hne : qb ≠ q')
+    (htie : ((if neg then -1 else 1) * a - qb).abs = ((if neg then -1 else 1) * a - q').abs) :
+    magRNE a % 2 = 0 := by
+  have hfin : magRNE a ≠ 0x7FF0000000000000 := by
+    intro hov; rw [hov] at h; exact overflow_not_fin neg q' h
+  obtain ⟨ex, x, t, σb, hu, hσb', ha', m0, hmag, hdec, hqb, hcase⟩ := enc_analysis neg a ha hfin b qb hb
+  rw [hdec] at h
+  injection h with h
+  generalize hσ : (if neg then (-1 : Rat) else 1) = σ at *
+  have hσ' : σ = 1 ∨ σ = -1 := by cases neg <;> simp at hσ <;> simp [← hσ]
+  generalize hm : roundHalfEven x = m at *
+  have e1 : σ * a - q' = (σ * (x - (m : Rat))) * pow2 (ex - 52) := by
+    rw [← h, ha']; grind
+  have e2 : σ * a - qb = (σ * x - σb * t) * pow2 (ex - 52) := by
+    rw [hqb, ha']; grind
+  rw [e1, e2, abs_mul_pos _ _ hu, abs_mul_pos _ _ hu] at htie
+  have hune := Rat.ne_of_gt hu
+  have htie' : (σ * x - σb * t).abs = (σ * (x - (m : Rat))).abs := by
+    have := congrArg (· * (pow2 (ex - 52))⁻¹) htie
+    simp only [Rat.mul_assoc, Rat.mul_inv_cancel _ hune, Rat.mul_one] at this
+    exact this
+  have hhalf := rhe_half x
+  rw [hm] at hhalf
+  rcases hcase with ⟨K, hK⟩ | ⟨ht0, ht1, hx52⟩
+  · -- the other float is the integer σ σb K in units of u
+    have hK' : ∃ K' : Int, (K' : Rat) = σ * σb * t := by
+      rcases hσ' with rfl | rfl <;> rcases hσb' with rfl | rfl
+      · exact ⟨K, by rw [hK]; grind⟩
+      · exact ⟨-K, by rw [Rat.intCast_neg, hK]; grind⟩
+      · exact ⟨-K, by rw [Rat.intCast_neg, hK]; grind⟩
+      · exact ⟨K, by rw [hK]; grind⟩
+    obtain ⟨K', hK'⟩ := hK'
+    have hKne : K' ≠ m := by
+      intro hEq
+      apply hne
+      rw [hqb, ← h]
+      have : σb * t = σ * (m : Rat) := by
+        rw [← hEq, hK']
+        rcases hσ' with rfl | rfl <;> grind
+      rw [this]; grind
+    have heq : (x - (K' : Rat)).abs = (x - (m : Rat)).abs := by
+      rw [hK']
+      simp only [abs_def] at htie' ⊢
+      rcases hσ' with rfl | rfl <;> rcases hσb' with rfl | rfl <;>
+        (repeat' split at htie') <;> (repeat' split) <;> grind
+    have hx := tie_is_half x m K' hKne hhalf heq
+    have hev := rhe_tie_even x hx
+    rw [hm] at hev
+    rw [hmag]; omega
+  · -- a float below the binade cannot tie
+    exfalso
+    have n1 := rhe_nearest x (2 ^ 52)
+    rw [hm, c52] at n1
+    simp only [abs_def] at htie' n1
+    rcases hσ' with rfl | rfl <;> rcases hσb' with rfl | rfl <;>
+      (repeat' split at htie') <;> (repeat' split at n1) <;> grind
+
+/-- **ties to even**: if another finite float is exactly as close to `q` as the result, the result
+is the one with the even bit pattern (even significand) -/
+theorem ofRatRNE_ties_even (q q' : Rat) (h : viewBits (ofRatRNE q) = .fin q') (b : Nat) (qb : Rat)
+    (hb : viewBits b = .fin qb) (hne : qb ≠ q') (htie : (q - qb).abs = (q - q').abs) :
+    ofRatRNE q % 2 = 0 := by
+  unfold ofRatRNE at h ⊢
+  by_cases h0 : q = 0
+  · simp [h0]
+  · rw [if_neg h0] at h ⊢
+    by_cases hn : q < 0
+    · rw [if_pos hn] at h ⊢
+      have ha : 0 < -q := by grind
+      have e : (-1 : Rat) * -q = q := by grind
+      have := ties_pos true (-q) ha q' (by simpa using h) b qb hb hne (by simp only [if_true]; rw [e]; exact htie)
+      omega
+    · rw [if_neg hn] at h ⊢
+      have ha : 0 < q := by grind
+      exact ties_pos false q ha q' (by simpa using h) b qb hb hne (by simpa [Rat.one_mul] using htie)
+
+
+
+/-- rounding reaches an even integer `N` exactly from `N − 1/2` on (the tie goes up to the even `N`) -/
+theorem rhe_ge_even (x : Rat) (N : Int) (hN : N % 2 = 0) :
+    N ≤ roundHalfEven x ↔ (N : Rat) - 1 / 2 ≤ x := by
+  have ⟨f1, f2⟩ := floor_bounds x
+  constructor
+  · intro h
+    rcases rhe_cases x with ⟨hm, hr⟩ | ⟨hm, hr⟩
+    · rw [hm] at h
+      have := Rat.intCast_le_intCast.mpr h
+      grind
+    · rw [hm] at h
+      have h' : N - 1 ≤ x.floor := by omega
+      have := Rat.intCast_le_intCast.mpr h'
+      rw [Rat.intCast_sub] at this
+      have c1 : ((1 : Int) : Rat) = 1 := rfl
+      grind
+  · intro h
+    by_cases hx : (N : Rat) ≤ x
+    · have : N ≤ x.floor := Rat.le_floor_iff.mpr hx
+      rcases rhe_cases x with ⟨hm, _⟩ | ⟨hm, _⟩ <;> omega
+    · have hfl : x.floor = N - 1 := by
+        apply Int.le_antisymm
+        · have : (x.floor : Rat) < (N : Rat) := by grind
+          have := Rat.intCast_lt_intCast.mp this; omega
+        · apply Rat.le_floor_iff.mpr
+          rw [Rat.intCast_sub]
+          have c1 : ((1 : Int) : Rat) = 1 := rfl
+          grind
+      have hr : 1 / 2 ≤ x - (x.floor : Rat) := by
+        rw [hfl, Rat.intCast_sub]
+        have c1 : ((1 : Int) : Rat) = 1 := rfl
+        grind
+      unfold roundHalfEven
+      simp only
+      split
+      · omega
+      · split
+        · grind
+        · split <;> omega
+
+/-- the overflow threshold: the largest finite value plus half an ulp -/
+def overflowThreshold : Rat := pow2 1024 - pow2 970
+
+theorem threshold_eq : overflowThreshold = (9007199254740992 - 1 / 2) * pow2 971 := by
+  unfold overflowThreshold
+  have h1 : pow2 1024 = pow2 53 * pow2 971 := by rw [← pow2_add]; rfl
+  have h2 : pow2 971 = 2 * pow2 970 := pow2_succ 970
+  rw [h1, pow2_53]; grind
+
+/-- **overflow**: the magnitude bits are the ∞ pattern exactly from `2^1024 − 2^970` on -/
+theorem magRNE_overflow_iff (a : Rat) (ha : 0 < a) :
+    magRNE a = 0x7FF0000000000000 ↔ overflowThreshold ≤ a := by
+  have ⟨b1, b2⟩ := expOf_bracket a ha
+  have ⟨m0, m1, mn⟩ := signif_range a ha
+  have hmag := magRNE_eq a
+  simp only at hmag m0 m1 mn
+  have hcl : clampExp (expOf a) = if expOf a < -1022 then -1022 else expOf a := rfl
+  generalize hex : clampExp (expOf a) = ex at *
+  generalize hm : roundHalfEven (a * pow2 (52 - ex)) = m at *
+  have hmagiff : magRNE a = 0x7FF0000000000000 ↔ 0x7FF0000000000000 ≤ (ex + 1022) * 2 ^ 52 + m := by
+    rw [hmag]; split <;> omega
+  rw [hmagiff, threshold_eq]
+  have hp971 := pow2_pos 971
+  by_cases hbig : 1024 ≤ ex
+  · -- a ≥ 2^1024
+    have hexe : ex = expOf a := by split at hcl <;> omega
+    have : pow2 1024 ≤ a := Rat.le_trans (pow2_le_of_le (by omega)) b1
+    have h1 : pow2 1024 = pow2 53 * pow2 971 := by rw [← pow2_add]; rfl
+    rw [h1, pow2_53] at this
+    constructor
+    · intro _; grind
+    · intro _; rcases mn with h | h <;> omega
+  · by_cases h1023 : ex = 1023
+    · have hN := rhe_ge_even (a * pow2 (52 - ex)) (2 ^ 53) (by decide)
+      rw [hm] at hN
+      have c : (((2 : Int) ^ 53 : Int) : Rat) = 9007199254740992 := by decide +kernel
+      rw [c, h1023] at hN
+      have hw : pow2 (52 - 1023) * pow2 971 = 1 := by rw [← pow2_add]; exact pow2_zero
+      have hw0 := pow2_pos (52 - 1023)
+      constructor
+      · intro h
+        have : (2 : Int) ^ 53 ≤ m := by omega
+        have h2 := hN.mp this
+        have h3 := Rat.mul_le_mul_of_nonneg_right h2 (Rat.le_of_lt hp971)
+        rw [Rat.mul_assoc, hw, Rat.mul_one] at h3
+        exact h3
+      · intro h
+        have h3 := Rat.mul_le_mul_of_nonneg_right h (Rat.le_of_lt hw0)
+        rw [Rat.mul_assoc, Rat.mul_comm (pow2 971), hw, Rat.mul_one] at h3
+        have := hN.mpr h3
+        omega
+    · -- a < 2^1023
+      have hlt : a < pow2 1023 := by
+        have : expOf a + 1 ≤ 1023 := by split at hcl <;> omega
+        have := pow2_le_of_le this
+        grind
+      have h1 : pow2 1023 = pow2 52 * pow2 971 := by rw [← pow2_add]; rfl
+      rw [h1, pow2_52] at hlt
+      constructor
+      · intro h; omega
+      · intro h; exfalso; grind
+
+
+/-- **overflow to ±∞**: from `2^1024 − 2^970` (the largest finite float plus half an ulp) on, the
+result is the infinity of the argument's sign -/
+theorem ofRatRNE_overflow (q : Rat) (h : overflowThreshold ≤ q.abs) :
+    ofRatRNE q = INF (decide (q < 0)) := by
+  have hth : 0 < overflowThreshold := by
+    rw [threshold_eq]; have := pow2_pos 971; grind
+  unfold ofRatRNE INF
+  simp only [abs_def] at h
+  by_cases h0 : q = 0
+  · subst h0; simp at h; grind
+  · rw [if_neg h0]
+    by_cases hn : q < 0
+    · have ha : 0 < -q := by grind
+      have : overflowThreshold ≤ -q := by split at h <;> grind
+      rw [if_pos hn, (magRNE_overflow_iff (-q) ha).mpr this]; simp [hn]
+    · have ha : 0 < q := by grind
+      have : overflowThreshold ≤ q := by split at h <;> grind
+      rw [if_neg hn, (magRNE_overflow_iff q ha).mpr this]; simp [hn]
+
+/-- below the threshold the result is a finite float -/
+theorem ofRatRNE_finite (q : Rat) (h : q.abs < overflowThreshold) :
+    ∃ q', viewBits (ofRatRNE q) = .fin q' := by
+  unfold ofRatRNE
+  simp only [abs_def] at h
+  by_cases h0 : q = 0
+  · subst h0; exact ⟨0, by simp [C07.viewBits_zeros.1]⟩
+  · rw [if_neg h0]
+    by_cases hn : q < 0
+    · have ha : 0 < -q := by grind
+      have hlt : ¬ overflowThreshold ≤ -q := by split at h <;> grind
+      have hfin : magRNE (-q) ≠ 0x7FF0000000000000 := fun e => hlt ((magRNE_overflow_iff (-q) ha).mp e)
+      rw [if_pos hn]
+      exact ⟨_, by simpa using magRNE_decode true (-q) ha hfin⟩
+    · have ha : 0 < q := by grind
+      have hlt : ¬ overflowThreshold ≤ q := by split at h <;> grind
+      have hfin : magRNE q ≠ 0x7FF0000000000000 := fun e => hlt ((magRNE_overflow_iff q ha).mp e)
+      rw [if_neg hn]
+      exact ⟨_, by simpa using magRNE_decode false q ha hfin⟩
+
+/-- every finite float is below the overflow threshold -/
+theorem finite_below_threshold (b : Nat) (q : Rat) (hb : viewBits b = .fin q) :
+    q.abs < overflowThreshold := by
+  obtain ⟨sig, ex, nb, hsig, hex1, hex2, hq⟩ := viewBits_fin b q hb
+  have hs : (sig : Rat) ≤ 9007199254740991 := by
+    have : sig ≤ 2 ^ 53 - 1 := by omega
+    have := (Rat.natCast_le_natCast (a := sig) (b := 2 ^ 53 - 1)).mpr this
+    have c : ((2 ^ 53 - 1 : Nat) : Rat) = 9007199254740991 := by decide +kernel
+    rw [c] at this; exact this
+  have hs0 : (0 : Rat) ≤ (sig : Rat) := Rat.natCast_nonneg
+  have hp : pow2 ((ex : Int) - 1075) ≤ pow2 971 := pow2_le_of_le (by omega)
+  have hp0 := pow2_pos ((ex : Int) - 1075)
+  have h971 := pow2_pos 971
+  have h1 : (sig : Rat) * pow2 ((ex : Int) - 1075) ≤ 9007199254740991 * pow2 971 := by
+    have a1 := Rat.mul_le_mul_of_nonneg_left hp hs0
+    have a2 := Rat.mul_le_mul_of_nonneg_right hs (Rat.le_of_lt h971)
+    grind
+  have h0 : 0 ≤ (sig : Rat) * pow2 ((ex : Int) - 1075) := Rat.mul_nonneg hs0 (Rat.le_of_lt hp0)
+  rw [threshold_eq, hq]
+  generalize (sig : Rat) * pow2 ((ex : Int) - 1075) = v at *
+  simp only [abs_def]
+  cases nb <;> simp <;> split <;> grind
+
+/-- **exactness**: a rational that is the value of a finite float is converted without error (so
+in particular subnormals and the largest finite float are reached) -/
+theorem ofRatRNE_exact (b : Nat) (q : Rat) (hb : viewBits b = .fin q) :
+    viewBits (ofRatRNE q) = .fin q := by
+  obtain ⟨q', hq'⟩ := ofRatRNE_finite q (finite_below_threshold b q hb)
+  have h := ofRatRNE_nearest_any q q' hq' b q hb
+  rw [hq']
+  have : q' = q := by
+    simp only [abs_def] at h
+    (repeat' split at h) <;> grind
+  rw [this]
+
+
+/-! ## 8. IEEE-754 `+ - * /` = the exact rational result, rounded once -/
+
+theorem viewBits_ZERO (s : Bool) : viewBits (ZERO s) = .fin 0 := by
+  cases s
+  · exact C07.viewBits_zeros.1
+  · exact C07.viewBits_zeros.2
+
+/-- a correctly rounded result: `r` is the float (bit pattern) IEEE-754 prescribes for the exact
+value `v`: the infinity of `v`'s sign from the overflow threshold on, otherwise a finite float that
+no other finite float is closer to `v` than -/
+def CorrectlyRounded (v : Rat) (r : Nat) : Prop :=
+  (overflowThreshold ≤ v.abs → r = INF (decide (v < 0))) ∧
+  (v.abs < overflowThreshold → ∃ q', viewBits r = .fin q' ∧
+    ∀ (b : Nat) (qb : Rat), viewBits b = .fin qb → (v - q').abs ≤ (v - qb).abs)
+
+theorem ofRatRNE_correctlyRounded (v : Rat) : CorrectlyRounded v (ofRatRNE v) := by
+  refine ⟨ofRatRNE_overflow v, fun h => ?_⟩
+  obtain ⟨q', hq'⟩ := ofRatRNE_finite v h
+  exact ⟨q', hq', fun b qb hb => ofRatRNE_nearest_any v q' hq' b qb hb⟩
+
+theorem roundSigned_correctlyRounded (v : Rat) (s : Bool) : CorrectlyRounded v (roundSigned v s) := by
+  unfold roundSigned
+  split
+  · rename_i h0; subst h0
+    refine ⟨fun h => ?_, fun _ => ⟨0, viewBits_ZERO s, fun b qb _ => ?_⟩⟩
+    · exfalso
+      have hth : 0 < overflowThreshold := by rw [threshold_eq]; have := pow2_pos 971; grind
+      simp only [abs_def] at h; split at h <;> grind
+    · simp only [abs_def]; (repeat' split) <;> grind
+  · exact ofRatRNE_correctlyRounded v
+
+/-- **IEEE addition of finite floats** is the exact sum, correctly rounded -/
+theorem add_finite (a b : Nat) (x y : Rat) (ha : viewBits a = .fin x) (hb : viewBits b = .fin y) :
+    F64.add a b = roundSigned (x + y) (signBit a && signBit b) ∧
+    CorrectlyRounded (x + y) (F64.add a b) := by
+  have : F64.add a b = roundSigned (x + y) (signBit a && signBit b) := by simp [F64.add, ha, hb]
+  exact ⟨this, this ▸ roundSigned_correctlyRounded _ _⟩
+
+theorem mul_finite (a b : Nat) (x y : Rat) (ha : viewBits a = .fin x) (hb : viewBits b = .fin y) :
+    F64.mul a b = roundSigned (x * y) (signBit a != signBit b) ∧
+    CorrectlyRounded (x * y) (F64.mul a b) := by
+  have : F64.mul a b = roundSigned (x * y) (signBit a != signBit b) := by simp [F64.mul, ha, hb]
+  exact ⟨this, this ▸ roundSigned_correctlyRounded _ _⟩
+
+theorem div_finite (a b : Nat) (x y : Rat) (ha : viewBits a = .fin x) (hb : viewBits b = .fin y)
+    (hy : y ≠ 0) :
+    F64.div a b = roundSigned (x / y) (signBit a != signBit b) ∧
+    CorrectlyRounded (x / y) (F64.div a b) := by
+  have : F64.div a b = roundSigned (x / y) (signBit a != signBit b) := by simp [F64.div, ha, hb, hy]
+  exact ⟨this, this ▸ roundSigned_correctlyRounded _ _⟩
+
+/-- the decoding as a function of the three fields -/
+def viewFields (s e m : Nat) : FView :=
+  if e = 2047 then (if m = 0 then .inf (s == 1) else .nan)
+  else
+    let sig : Nat := if e = 0 then m else 2 ^ 52 + m
+    let ex : Nat := if e = 0 then 1 else e
+    .fin (if s = 1 then -(magValue sig ex) else magValue sig ex)
+
+theorem viewBits_eq_fields (b : Nat) :
+    viewBits b = viewFields (b / 2 ^ 63 % 2) (b / 2 ^ 52 % 2048) (b % 2 ^ 52) := rfl
+
+theorem viewFields_flip (s e m : Nat) (hs : s = 0 ∨ s = 1) :
+    viewFields (1 - s) e m = match viewFields s e m with
+      | .nan => .nan
+      | .inf t => .inf (!t)
+      | .fin y => .fin (-y) := by
+  unfold viewFields
+  rcases hs with rfl | rfl <;> simp only <;> split <;> (try split) <;> simp_all [Rat.neg_neg]
+
+/-- flipping the sign bit negates the value -/
+theorem viewBits_neg (b : Nat) (hb : b < 2 ^ 64) :
+    viewBits (F64.neg b) = match viewBits b with
+      | .nan => .nan
+      | .inf s => .inf (!s)
+      | .fin y => .fin (-y) := by
+  have hs : b / 2 ^ 63 % 2 = 0 ∨ b / 2 ^ 63 % 2 = 1 := by omega
+  rw [viewBits_eq_fields (F64.neg b), viewBits_eq_fields b, ← viewFields_flip _ _ _ hs]
+  unfold F64.neg signBit
+  rcases hs with h | h
+  · have hne : ¬ ((b / 2 ^ 63 % 2 == 1) = true) := by simp [h]
+    have e1 : (b + 2 ^ 63) / 2 ^ 63 % 2 = 1 - b / 2 ^ 63 % 2 := by omega
+    have e2 : (b + 2 ^ 63) / 2 ^ 52 % 2048 = b / 2 ^ 52 % 2048 := by omega
+    have e3 : (b + 2 ^ 63) % 2 ^ 52 = b % 2 ^ 52 := by omega
+    rw [if_neg hne, e1, e2, e3]
+  · have hne : ((b / 2 ^ 63 % 2 == 1) = true) := by simp [h]
+    have e1 : (b - 2 ^ 63) / 2 ^ 63 % 2 = 1 - b / 2 ^ 63 % 2 := by omega
+    have e2 : (b - 2 ^ 63) / 2 ^ 52 % 2048 = b / 2 ^ 52 % 2048 := by omega
+    have e3 : (b - 2 ^ 63) % 2 ^ 52 = b % 2 ^ 52 := by omega
+    rw [if_pos hne, e1, e2, e3]
+
+theorem sub_finite (a b : Nat) (x y : Rat) (hb64 : b < 2 ^ 64) (ha : viewBits a = .fin x)
+    (hb : viewBits b = .fin y) :
+    CorrectlyRounded (x - y) (F64.sub a b) := by
+  have hn := viewBits_neg b hb64
+  rw [hb] at hn
+  have := (add_finite a (F64.neg b) x (-y) ha hn).2
+  rw [← Rat.sub_eq_add_neg] at this
+  exact this
+
+/-! ### special values -/
+
+theorem add_nan (a b : Nat) (h : viewBits a = .nan ∨ viewBits b = .nan) : F64.add a b = NAN := by
+  unfold F64.add; rcases h with h | h <;> rw [h] <;> cases viewBits _ <;> rfl
+theorem mul_nan (a b : Nat) (h : viewBits a = .nan ∨ viewBits b = .nan) : F64.mul a b = NAN := by
+  unfold F64.mul; rcases h with h | h <;> rw [h] <;> cases viewBits _ <;> rfl
+theorem div_nan (a b : Nat) (h : viewBits a = .nan ∨ viewBits b = .nan) : F64.div a b = NAN := by
+  unfold F64.div; rcases h with h | h <;> rw [h] <;> cases viewBits _ <;> rfl
+
+/-- `∞ − ∞`, `0 · ∞`, `0 / 0`, `∞ / ∞` are NaN; `x / 0` is ±∞ -/
+theorem invalid_operations (a b : Nat) (s t : Bool) (x : Rat) :
+    (viewBits a = .inf s → viewBits b = .inf (!s) → F64.add a b = NAN) ∧
+    (viewBits a = .fin 0 → viewBits b = .inf t → F64.mul a b = NAN) ∧
+    (viewBits a = .fin 0 → viewBits b = .fin 0 → F64.div a b = NAN) ∧
+    (viewBits a = .inf s → viewBits b = .inf t → F64.div a b = NAN) ∧
+    (viewBits a = .fin x → x ≠ 0 → viewBits b = .fin 0 →
+      F64.div a b = INF (signBit a != signBit b)) := by
+  refine ⟨?_, ?_, ?_, ?_, ?_⟩
+  · intro h1 h2; simp [F64.add, h1, h2]
+  · intro h1 h2; simp [F64.mul, h1, h2]
+  · intro h1 h2; simp [F64.div, h1, h2]
+  · intro h1 h2; simp [F64.div, h1, h2]
+  · intro h1 hx h2; simp [F64.div, h1, h2, hx]
+
+
+variable {C : Type}
+
+/-! ## 9. the tower with IEEE-754 floats: compute in ℚ, then round
+
+`ieeeOps R` is the float structure whose `+ - * /`, unary minus, conversions and decoding are the
+IEEE ones of Impl/F64Ieee.lean (everything else comes from an arbitrary `R`).  Every theorem of
+Theorems/C07.lean holds for it by instantiation; the float arm becomes concrete. -/
+
+/-- all of C07 for the IEEE structure -/
+theorem C07_holds_ieee (R : FloatOps Nat C) :
+    (∀ op A B, Vectorize.binop (ieeeOps R) op A B = TowerSpec.vbinop (ieeeOps R) op A B) ∧
+    (∀ op A, Vectorize.unop (ieeeOps R) op A = TowerSpec.vunop (ieeeOps R) op A) :=
+  ⟨(C07.C07_holds Nat C (ieeeOps R)).1, (C07.C07_holds Nat C (ieeeOps R)).2.1⟩
+
+/-- the float an operand is converted to at the float level: the correctly rounded value of an
+int / rational, the float itself -/
+theorem toF_ieee (R : FloatOps Nat C) (a : NNum Nat C) :
+    toF (ieeeOps R) a = match a with
+      | .int i => some (ofRatRNE (i : Rat))
+      | .rat r => some (ofRatRNE r)
+      | .float f => some f
+      | .complex _ => none := by
+  cases a <;> rfl
+
+/-- the IEEE operation behind an operator name -/
+def ieeeOp : String → Option (Nat → Nat → Nat)
+  | "+" => some F64.add
+  | "-" => some F64.sub
+  | "*" => some F64.mul
+  | "/" => some F64.div
+  | _ => none
+
+/-- **float arm of the tower**: when both operands are real and at least one is a float, `+ - * /`
+apply the IEEE operation to the operands converted to float (ints and rationals are rounded
+first — two roundings in all, as the level rule says) -/
+theorem tower_float_arm (R : FloatOps Nat C) (name : String) (f : Nat → Nat → Nat)
+    (hop : ieeeOp name = some f) (a b : NNum Nat C) (fa fb : Nat)
+    (ha : toF (ieeeOps R) a = some fa) (hb : toF (ieeeOps R) b = some fb)
+    (hfl : exact a = none ∨ exact b = none) :
+    NNum.binop (ieeeOps R) name a b = .ok (.float (f fa fb)) := by
+  rw [C07.binop_refines]
+  unfold ieeeOp at hop
+  split at hop <;> simp at hop <;> subst hop
+  all_goals
+    cases a <;> cases b <;> simp [exact] at hfl <;> simp [toF] at ha hb <;> subst ha hb <;>
+      simp [TowerSpec.binop, arith, divide, inexactDiv, exact, toF, fOp, ieeeOps]
+
+/-- **the float arm refines "exact result in ℚ, rounded once"**: with finite converted operands
+`x`, `y` the result of `+ - *` (and `/` for `y ≠ 0`) is the correctly rounded value of
+`x + y`, `x − y`, `x · y`, `x / y`: ±∞ from the overflow threshold on, otherwise a float that no
+finite float is closer to the exact result than -/
+theorem tower_float_rounds (R : FloatOps Nat C) (a b : NNum Nat C) (fa fb : Nat) (x y : Rat)
+    (ha : toF (ieeeOps R) a = some fa) (hb : toF (ieeeOps R) b = some fb)
+    (hfl : exact a = none ∨ exact b = none) (hfb : fb < 2 ^ 64)
+    (hx : viewBits fa = .fin x) (hy : viewBits fb = .fin y) :
+    (∃ r, NNum.binop (ieeeOps R) "+" a b = .ok (.float r) ∧ CorrectlyRounded (x + y) r) ∧
+    (∃ r, NNum.binop (ieeeOps R) "-" a b = .ok (.float r) ∧ CorrectlyRounded (x - y) r) ∧
+    (∃ r, NNum.binop (ieeeOps R) "*" a b = .ok (.float r) ∧ CorrectlyRounded (x * y) r) ∧
+    (y ≠ 0 → ∃ r, NNum.binop (ieeeOps R) "/" a b = .ok (.float r) ∧ CorrectlyRounded (x / y) r) := by
+  refine ⟨⟨_, tower_float_arm R "+" _ rfl a b fa fb ha hb hfl, (add_finite fa fb x y hx hy).2⟩,
+    ⟨_, tower_float_arm R "-" _ rfl a b fa fb ha hb hfl, sub_finite fa fb x y hfb hx hy⟩,
+    ⟨_, tower_float_arm R "*" _ rfl a b fa fb ha hb hfl, (mul_finite fa fb x y hx hy).2⟩,
+    fun hy0 => ⟨_, tower_float_arm R "/" _ rfl a b fa fb ha hb hfl, (div_finite fa fb x y hx hy hy0).2⟩⟩
+
+/-- the conversion of an exact operand is itself correctly rounded -/
+theorem tower_conversion_rounds (R : FloatOps Nat C) (a : NNum Nat C) (p : Rat)
+    (ha : exact a = some p) :
+    ∃ fa, toF (ieeeOps R) a = some fa ∧ CorrectlyRounded p fa := by
+  cases a <;> simp [exact] at ha <;> subst ha
+  · exact ⟨_, rfl, ofRatRNE_correctlyRounded _⟩
+  · exact ⟨_, rfl, ofRatRNE_correctlyRounded _⟩
+
+/-- `float(x)` of the tower is the correctly rounded value of an int / rational -/
+theorem float_builtin_rounds (R : FloatOps Nat C) (a : NNum Nat C) (p : Rat) (ha : exact a = some p) :
+    ∃ r, NNum.unop (ieeeOps R) "float" a = .ok (.float r) ∧ CorrectlyRounded p r := by
+  obtain ⟨fa, hfa, hr⟩ := tower_conversion_rounds R a p ha
+  exact ⟨fa, by rw [C07.unop_refines]; simp [TowerSpec.unop, hfa], hr⟩
+
+/-- NaN propagates through the float arm -/
+theorem tower_nan_propagates (R : FloatOps Nat C) (a b : NNum Nat C) (fa fb : Nat)
+    (ha : toF (ieeeOps R) a = some fa) (hb : toF (ieeeOps R) b = some fb)
+    (hfl : exact a = none ∨ exact b = none)
+    (hnan : viewBits fa = .nan ∨ viewBits fb = .nan) :
+    NNum.binop (ieeeOps R) "+" a b = .ok (.float NAN) ∧
+    NNum.binop (ieeeOps R) "*" a b = .ok (.float NAN) ∧
+    NNum.binop (ieeeOps R) "/" a b = .ok (.float NAN) := by
+  rw [tower_float_arm R "+" _ rfl a b fa fb ha hb hfl, tower_float_arm R "*" _ rfl a b fa fb ha hb hfl,
+    tower_float_arm R "/" _ rfl a b fa fb ha hb hfl, add_nan _ _ hnan, mul_nan _ _ hnan, div_nan _ _ hnan]
+  exact ⟨rfl, rfl, rfl⟩
+
+/-! ### non-vacuity (kernel evaluation) -/
+
+example : F64.add 0x3FF0000000000000 0x3CA0000000000000 = 0x3FF0000000000000 := by decide +kernel  -- 1 + 2^-53: tie, to even
+example : F64.add 0x3FF0000000000001 0x3CA0000000000000 = 0x3FF0000000000002 := by decide +kernel  -- odd + half ulp: up
+example : F64.add 0x7FEFFFFFFFFFFFFF 0x7C90000000000000 = 0x7FF0000000000000 := by decide +kernel  -- MAX + 2^970 = +inf
+example : F64.add 0x7FEFFFFFFFFFFFFF 0x7C80000000000000 = 0x7FEFFFFFFFFFFFFF := by decide +kernel  -- MAX + 2^969 = MAX
+example : F64.mul 0x0000000000000001 0x3FE0000000000000 = 0 := by decide +kernel                   -- min subnormal / 2: tie, to 0
+example : F64.mul 0x0000000000000003 0x3FE0000000000000 = 2 := by decide +kernel                   -- 1.5 min: tie, to even
+example : F64.mul 0x8000000000000001 0x3FE0000000000000 = 0x8000000000000000 := by decide +kernel  -- underflow keeps the sign
+example : F64.add 0x8000000000000000 0x8000000000000000 = 0x8000000000000000 ∧
+    F64.add 0 0x8000000000000000 = 0 ∧ F64.sub 0x3FF0000000000000 0x3FF0000000000000 = 0 := by decide +kernel
+example : F64.div 0x3FF0000000000000 0x4008000000000000 = 0x3FD5555555555555 := by decide +kernel  -- 1/3
+example : F64.div 0x3FF0000000000000 0x8000000000000000 = 0xFFF0000000000000 ∧
+    F64.div 0 0 = NAN ∧ F64.sub 0x7FF0000000000000 0x7FF0000000000000 = NAN := by decide +kernel
+
+
+/-! ### `%`, `//`, `%%` at the float level -/
+
+/-- `x % y` on finite floats (`y ≠ 0`) is the truncated remainder `x − y·trunc(x/y)` of the exact
+values, correctly rounded (it is in fact exactly representable, so nothing is lost) -/
+theorem rem_finite (a b : Nat) (x y : Rat) (ha : viewBits a = .fin x) (hb : viewBits b = .fin y)
+    (hy : y ≠ 0) :
+    CorrectlyRounded (x - y * ((truncQ (x / y) : Int) : Rat)) (F64.rem a b) := by
+  have : F64.rem a b = roundSigned (x - y * ((truncQ (x / y) : Int) : Rat)) (signBit a) := by
+    simp [F64.rem, ha, hb, hy]
+  exact this ▸ roundSigned_correctlyRounded _ _
+
+/-- the float-level `%` computes the same mathematical function as the exact levels' `%` -/
+theorem truncQ_eq_trunc (q : Rat) : truncQ q = TowerSpec.trunc q := rfl
+
+/-- **float arm of `% // %%`**: the IEEE remainder, and the standard library's `div_euclid` /
+`rem_euclid` compositions, applied to the converted operands; a zero divisor is an error for `//`
+and `%%` (and gives NaN for `%`) -/
+theorem tower_float_arm_mod (R : FloatOps Nat C) (a b : NNum Nat C) (fa fb : Nat)
+    (ha : toF (ieeeOps R) a = some fa) (hb : toF (ieeeOps R) b = some fb)
+    (hfl : exact a = none ∨ exact b = none) :
+    NNum.binop (ieeeOps R) "%" a b = .ok (.float (F64.rem fa fb)) ∧
+    (isZero (ieeeOps R) b = false →
+      NNum.binop (ieeeOps R) "//" a b = .ok (.float (F64.divEuclid fa fb)) ∧
+      NNum.binop (ieeeOps R) "%%" a b = .ok (.float (F64.remEuclid fa fb))) ∧
+    (isZero (ieeeOps R) b = true →
+      NNum.binop (ieeeOps R) "//" a b = .throw ∧ NNum.binop (ieeeOps R) "%%" a b = .throw) := by
+  simp only [C07.binop_refines, TowerSpec.binop]
+  cases a <;> cases b <;> simp [exact] at hfl <;> simp [toF] at ha hb <;> subst ha hb <;>
+    refine ⟨?_, ?_, ?_⟩ <;> (try intro hz) <;>
+    simp_all [arith, exact, toF, fOp, ieeeOps]
+
+example : F64.rem 0x401C000000000000 0xC000000000000000 = 0x3FF0000000000000 ∧       -- 7 % -2 = 1
+    F64.divEuclid 0x401C000000000000 0xC000000000000000 = 0xC008000000000000 ∧      -- 7 // -2 = -3 (euclid)
+    F64.remEuclid 0xC01C000000000000 0x4000000000000000 = 0x3FF0000000000000 ∧      -- -7 %% 2 = 1
+    F64.rem 0xC010000000000000 0x4000000000000000 = 0x8000000000000000 := by        -- -4 % 2 = -0
+  decide +kernel
 
 
 end Noulith.C07F
